@@ -6,8 +6,8 @@
    gc_gen_ok                       the CLI exited 0 and the package compiled
    gc_text                         the sorter's block of the generated file, one trimmed line
                                    each (informational: compared with render_sorter)
-   gc_univ                         the element values used: one `elem` per combination of the
-                                   2-3 values chosen per tagged field
+   gc_vals                         per struct field the 2-3 values used for it (ranks / bools; one
+                                   dummy value for an untagged field); gc_univ = all combinations
    gc_seen_t / gc_seen_f           row a, bit b: Less(i,j) returned true / false for some slice
                                    and positions with s[i] = univ[a], s[j] = univ[b] (all slices
                                    of <= 4 elements over gc_univ when exhaustive)
@@ -18,17 +18,36 @@
    tagged fields in ascending priority, false < true; sort.Sort yields a sorted permutation,
    sort.Stable the stable one), 2 when it satisfies the specification but not the model.     *)
 From Coq Require Import List Bool ZArith NArith String Arith.
-From GT Require Import Base.Verdict Base.SortU GSortModel.
+From GT Require Import Base.Verdict.
+From GT Require Import GSortModel Base.SortU.
 Import ListNotations.
 
-Record gs_run := { sr_in : list nat; sr_sort : list nat; sr_stable : list nat }.
+(* a list of small numbers (indices, ids) is written as a string, three lower-case hexadecimal
+   digits per entry (string literals are cheap to parse, long list or number literals are not) *)
+Record gs_run := { sr_in : string; sr_sort : string; sr_stable : string }.
 Record gs_case := {
   gc_type : string; gc_fields : list fieldT; gc_sorter : string;
   gc_gen_ok : bool;
   gc_text : list string;
-  gc_univ : list elem;
+  gc_vals : list (list val);
   gc_seen_t : list N; gc_seen_f : list N;
   gc_runs : list gs_run }.
+
+Definition hexv (c : Ascii.ascii) : nat :=
+  let n := Ascii.nat_of_ascii c in if Nat.ltb n 58 then n - 48 else n - 87.
+Fixpoint unpack (s : string) : list nat :=
+  match s with
+  | String a (String b (String c r)) => (hexv a * 256 + hexv b * 16 + hexv c) :: unpack r
+  | _ => []
+  end.
+
+(* all combinations of the per-field values; field 0 varies fastest *)
+Fixpoint univ_of (vals : list (list val)) : list elem :=
+  match vals with
+  | [] => [[]]
+  | vs :: rest => flat_map (fun tl => map (fun v => v :: tl) vs) (univ_of rest)
+  end.
+Definition gc_univ (c : gs_case) : list elem := univ_of (gc_vals c).
 
 Definition ltT := elem -> elem -> bool.
 
@@ -65,8 +84,11 @@ Definition elems_of (univ : list elem) (input : list nat) : list (nat * elem) :=
 Definition lt_id (lt : ltT) (x y : nat * elem) : bool := lt (snd x) (snd y).
 Definition ref_ids (lt : ltT) (univ : list elem) (input : list nat) : list nat :=
   map fst (isort (lt_id lt) (elems_of univ input)).
+(* binary numbers for the n^2 membership test (unary nat comparison is slow in the VM) *)
 Definition is_perm_ids (o : list nat) (n : nat) : bool :=
-  Nat.eqb (List.length o) n && forallb (fun i => existsb (Nat.eqb i) o) (seq 0 n).
+  let o' := map N.of_nat o in
+  Nat.eqb (List.length o) n
+  && forallb (fun i => existsb (N.eqb i) o') (map N.of_nat (seq 0 n)).
 Definition elem_at (univ : list elem) (input : list nat) (id : nat) : elem :=
   nth (nth id input 0) univ [].
 Fixpoint nats_eqb (a b : list nat) : bool :=
@@ -92,14 +114,16 @@ Definition stable_ok (lt : ltT) (univ : list elem) (input o : list nat) : bool :
   nats_eqb o (ref_ids lt univ input).
 
 Definition run_ok (lt : ltT) (univ : list elem) (r : gs_run) : bool :=
-  sort_ok lt univ (sr_in r) (sr_sort r) && ties_agree lt univ (sr_in r) (sr_sort r)
-  && stable_ok lt univ (sr_in r) (sr_stable r).
+  let input := unpack (sr_in r) in
+  let o := unpack (sr_sort r) in
+  sort_ok lt univ input o && ties_agree lt univ input o
+  && stable_ok lt univ input (unpack (sr_stable r)).
 
 Definition obs_ok (lt : ltT) (c : gs_case) : bool :=
-  rows_ok lt (gc_univ c) (gc_univ c) (gc_seen_t c) (gc_seen_f c)
-  && forallb (run_ok lt (gc_univ c)) (gc_runs c).
+  let u := gc_univ c in
+  rows_ok lt u u (gc_seen_t c) (gc_seen_f c) && forallb (run_ok lt u) (gc_runs c).
 Definition obs_cov (c : gs_case) : bool :=
-  rows_cov (gc_univ c) (gc_univ c) (gc_seen_t c) (gc_seen_f c).
+  let u := gc_univ c in rows_cov u u (gc_seen_t c) (gc_seen_f c).
 
 (* the definition is inside the property's quantifier: some tag, and every sorter's priorities
    pairwise distinct *)
